@@ -186,7 +186,7 @@ def build_data(spec: dict):
     nsteps, numseed."""
     import torch
     rng = random.Random(spec.get("numseed", 0))
-    n, nsteps = spec["n"], spec.get("nsteps", 2)
+    n, nsteps = spec["n"], spec.get("nsteps", 3 if spec.get("slm") else 2)
     plain = spec.get("numseed", 0) == 0
     omega = [[1.0 if plain else round(rng.uniform(0.0, 6.0), 3) for _ in range(n)] for _ in range(nsteps)]
     delta = [[0.0 if plain else round(rng.uniform(-6.0, 6.0), 3) for _ in range(n)] for _ in range(nsteps)]
@@ -194,7 +194,7 @@ def build_data(spec: dict):
     U = torch.zeros(n, n, dtype=torch.float64)
     for i in range(n):
         for j in range(i + 1, n):
-            U[i, j] = U[j, i] = 0.5 if plain else round(rng.uniform(0.0, 3.0), 3)
+            U[i, j] = U[j, i] = 0.5 if plain else round(rng.uniform(0.1, 3.0), 3)
     dt = 10.0 if plain else rng.choice([10.0, 5.0, 20.0])
     times = [dt * k for k in range(nsteps + 1)]
     ops = []
@@ -205,9 +205,18 @@ def build_data(spec: dict):
             if not plain:
                 m[min(1, d - 1), 0] += rng.uniform(-0.2, 0.2)
         ops.append(m)
+    masked, slm_end = None, 0.0
+    if spec.get("slm"):
+        # SLM mask on the last atom, ending at the step boundary `slm_end_step` (default: after the first
+        # step): the interaction matrix seen by the back-end changes inside the run
+        masked = U.clone()
+        masked[n - 1, :] = 0.0
+        masked[:, n - 1] = 0.0
+        slm_end = times[spec.get("slm_end_step", 1)]
     return compat.make_sequence_data(omega, delta, phi, U, times, eigenstates=tuple(spec["eig"]),
                                      hamiltonian_type=spec["ham"], lindblad_ops=ops,
-                                     bad_atoms=spec.get("bad"), state_prep_error=spec.get("spe", 0.0))
+                                     bad_atoms=spec.get("bad"), state_prep_error=spec.get("spe", 0.0),
+                                     masked_U=masked, slm_end_time=slm_end)
 
 
 def build_config(spec: dict):
@@ -232,15 +241,27 @@ def features(backend: str, data, cfg, sv_solver: str = "tdvp") -> dict:
     solver = sv_solver
     if backend == "mps":
         solver = "dmrg" if cfg.solver.name == "DMRG" else "tdvp"
+    import torch
+    tt = data.target_times
+    mats = [data.interaction_matrix(0.5 * (tt[k] + tt[k + 1])) for k in range(len(tt) - 1)]
+    # what `timestep_complete` tests after step k: is the matrix of step k+1 the current one?
+    changes = [not torch.allclose(mats[k], mats[k + 1], atol=1e-10) for k in range(len(mats) - 1)]
     return dict(backend=backend, ham="rydberg" if data.hamiltonian_type.name == "Rydberg" else "xy",
                 dim=len(data.eigenstates), op_dims=[int(o.shape[0]) for o in data.lindblad_ops],
-                n=n, good=good, solver=solver, cfg_noise=cfg.noise_model.noise_types != ())
+                n=n, good=good, solver=solver, cfg_noise=cfg.noise_model.noise_types != (), changes=changes)
 
 
 def seq_line(feat: dict, variant="repaired") -> str:
     return " ".join(["config.seq", variant, feat["backend"], feat["ham"], str(feat["dim"]),
                      lst(str(d) for d in feat["op_dims"]), str(feat["n"]), str(feat["good"]),
                      feat["solver"], "1" if feat["cfg_noise"] else "0"])
+
+
+def run_line(feat: dict, rebuild="passes", variant="repaired") -> str:
+    return " ".join(["config.run", rebuild, variant, feat["backend"], feat["ham"], str(feat["dim"]),
+                     lst(str(d) for d in feat["op_dims"]), str(feat["n"]), str(feat["good"]),
+                     feat["solver"], "1" if feat["cfg_noise"] else "0",
+                     lst("1" if c else "0" for c in feat["changes"])])
 
 
 def cell_of(feat: dict) -> tuple:
@@ -250,38 +271,97 @@ def cell_of(feat: dict) -> tuple:
                                  ("uniformWrong" if all(x == ops[0] for x in ops) else "mixed"))
     ac = "tooFew" if feat["n"] < 2 else ("oneGood" if feat["good"] <= 1 else "enough")
     return (feat["backend"], feat["ham"], {2: "d2", 3: "d3"}.get(d, "other"), oc, ac, feat["solver"],
-            feat["cfg_noise"])
+            feat["cfg_noise"], any(feat.get("changes", [])))
 
 
 # --------------------------------------------------------------------------- running the real code
-def run_real(backend: str, data, cfg) -> tuple[str, dict]:
-    """`<Backend>._run_from_sequence_data(data, cfg)` → (`emulate <kind>` | `raise <err>`, info)."""
-    compat.install()
-    info: dict = {"make_H": []}
+@contextlib.contextmanager
+def recording(info: dict):
+    """Harness-side observation of *which operator family is actually built and used*, independent
+    of the arguments the repository passes around:
+      * `emu_mps.hamiltonian.{Rydberg,XY}HamiltonianMPOFactors` (what `make_H` instantiates) are
+        wrapped → `info["built"]` = [(family, dim), …] in construction order;
+      * `mps_backend_impl.make_H` is wrapped to remember which family each returned MPO is;
+      * `mps_backend_impl.update_H` (called once per time step, on the MPO about to be used) is wrapped
+        → `info["steps"]` = the Hamiltonian kind in use, step by step;
+      * emu-sv: `RydbergHamiltonian` / `RydbergLindbladian` constructions in `emu_sv.time_evolution`
+        (one per step) are recorded as `rydberg2`."""
+    import emu_mps.hamiltonian as mh
     import emu_mps.mps_backend_impl as mbi
-    real_make_H = mbi.make_H
+    import emu_sv.time_evolution as ste
+    info.setdefault("built", [])
+    info.setdefault("steps", [])
+    info.setdefault("make_H", [])
+    kinds: dict = {}
+    keep: list = []
+    real = dict(ryd=mh.RydbergHamiltonianMPOFactors, xy=mh.XYHamiltonianMPOFactors, make_H=mbi.make_H,
+                update_H=mbi.update_H, svh=ste.RydbergHamiltonian, svl=ste.RydbergLindbladian)
+
+    def fac(family, cls):
+        def build(interaction_matrix, dim=2, *a, **kw):
+            info["built"].append((family, int(dim)))
+            return cls(interaction_matrix, dim, *a, **kw)
+        return build
 
     def rec_make_H(*a, **kw):
-        info["make_H"].append((kw["hamiltonian_type"].name, kw.get("dim", 2)))
-        return real_make_H(*a, **kw)
+        n0 = len(info["built"])
+        mpo = real["make_H"](*a, **kw)
+        k = info["built"][n0] if len(info["built"]) > n0 else ("?", 0)
+        kinds[id(mpo)] = f"{k[0]}{k[1]}"
+        keep.append(mpo)
+        info["make_H"].append(("Rydberg" if k[0] == "rydberg" else "XY", k[1]))
+        return mpo
 
+    def rec_update_H(*a, **kw):
+        h = kw.get("hamiltonian", a[0] if a else None)
+        info["steps"].append(kinds.get(id(h), "?"))
+        return real["update_H"](*a, **kw)
+
+    def sv(cls):
+        def build(*a, **kw):
+            info["steps"].append("rydberg2")
+            return cls(*a, **kw)
+        return build
+
+    with mock.patch.object(mh, "RydbergHamiltonianMPOFactors", fac("rydberg", real["ryd"])), \
+            mock.patch.object(mh, "XYHamiltonianMPOFactors", fac("xy", real["xy"])), \
+            mock.patch.object(mbi, "make_H", rec_make_H), mock.patch.object(mbi, "update_H", rec_update_H), \
+            mock.patch.object(ste, "RydbergHamiltonian", sv(real["svh"])), \
+            mock.patch.object(ste, "RydbergLindbladian", sv(real["svl"])), \
+            contextlib.redirect_stdout(io.StringIO()):          # the XY MPO builder prints a banner
+        yield info
+
+
+def collapse(steps: list) -> list:
+    out = []
+    for k in steps:
+        if not out or out[-1] != k:
+            out.append(k)
+    return out
+
+
+def emulate_string(backend: str, info: dict) -> str:
+    """`emulate k1>k2…`: the sequence of distinct Hamiltonians in use over the run."""
+    steps = collapse(info.get("steps", []))
+    if not steps:
+        steps = ["rydberg2"] if backend == "sv" else ["?"]
+    return "emulate " + ">".join(steps)
+
+
+def run_real(backend: str, data, cfg) -> tuple[str, dict]:
+    """`<Backend>._run_from_sequence_data(data, cfg)` → (`emulate <kinds>` | `raise <err>`, info)."""
+    compat.install()
+    info: dict = {}
     try:
-        with contextlib.redirect_stdout(io.StringIO()):     # the XY MPO builder prints a banner
-            if backend == "sv":
-                res = compat.run_sv(data, cfg)
-            else:
-                with mock.patch.object(mbi, "make_H", rec_make_H):
-                    res = compat.run_mps(data, cfg)
+        with recording(info):
+            res = compat.run_sv(data, cfg) if backend == "sv" else compat.run_mps(data, cfg)
     except Exception as e:  # the outcome class of the real code
         info["exc"] = f"{type(e).__name__}: {str(e)[:160]}"
         return "raise " + canon_exc(e), info
     if type(res).__name__ != "Results":
         return "other:" + type(res).__name__, info
-    if backend == "sv":
-        # emu-sv has a single operator family (RydbergHamiltonian / RydbergLindbladian on 2^N amplitudes)
-        return "emulate rydberg2", info
-    ht, dim = info["make_H"][0] if info["make_H"] else ("?", 0)
-    return f"emulate {'rydberg' if ht == 'Rydberg' else 'xy'}{dim}", info
+    info["results"] = res
+    return emulate_string(backend, info), info
 
 
 def oracle_run(backend: str, data, cfg, outcome: str, info: dict):
@@ -301,9 +381,20 @@ def oracle_run(backend: str, data, cfg, outcome: str, info: dict):
         if cfg.solver.name == "DMRG" and (len(data.lindblad_ops) > 0 or cfg.noise_model.noise_types != ()):
             return (f"DMRG solver returned Results with noise (lindblad_ops={len(data.lindblad_ops)}, "
                     f"config noise_types={cfg.noise_model.noise_types})"), "dmrg-emulates-noise"
-        for ht, d in info["make_H"]:
-            if ht != ham or d != dim:
-                return f"emu-mps built make_H({ht}, dim={d}) for a {ham}/{dim}-level sequence", "mps-wrong-hamiltonian"
+    want = f"{'rydberg' if ham == 'Rydberg' else 'xy'}{dim}"
+    steps = info.get("steps", [])
+    if steps and steps[0] != want:
+        return (f"{backend} started the run with the {steps[0]} Hamiltonian for a {ham}/{dim}-level sequence",
+                "wrong-hamiltonian")
+    for i, k in enumerate(steps):
+        if k != want:
+            return (f"{backend} switched from the {want} Hamiltonian to {k} at (re)build/step {i} of the run "
+                    f"(interaction matrix changes mid-run: SLM mask ending at "
+                    f"{getattr(data.interaction_matrix, 'slm_end_time', None)} ns); Results were returned"), \
+                "hamiltonian-type-changes-mid-run"
+    for fam, d in info.get("built", []):
+        if f"{fam}{d}" != want:
+            return f"emu-mps built a {fam}{d} MPO for a {ham}/{dim}-level sequence", "wrong-hamiltonian"
     return None
 
 
@@ -403,8 +494,8 @@ def sequence_real(backend: str, bases: str, nmspec: dict, solver: str, dev_noise
     import emu_mps.mps_backend_impl as mbi
     cfg = build_config(dict(backend=backend, solver=solver, noise=nmspec, prefer=prefer))
     seq = pulser_sequence(bases, dev_noise=dev_noise)
-    basis, captured, info = [], [], {"make_H": []}
-    real_gs, real_fs, real_make_H = pa.PulserData.get_sequences, pa.HamiltonianData.from_sequence, mbi.make_H
+    basis, captured, info = [], [], {}
+    real_gs, real_fs = pa.PulserData.get_sequences, pa.HamiltonianData.from_sequence
 
     def squeezed(self):
         for sd in real_gs(self):
@@ -421,18 +512,13 @@ def sequence_real(backend: str, bases: str, nmspec: dict, solver: str, dev_noise
         basis.append((h.basis_data.interaction_type, h.basis_data.dim))
         return h
 
-    def rec_make_H(*a, **kw):
-        info["make_H"].append((kw["hamiltonian_type"].name, kw.get("dim", 2)))
-        return real_make_H(*a, **kw)
-
     if backend == "sv":
         from emu_sv.sv_backend import SVBackend as B
     else:
         from emu_mps.mps_backend import MPSBackend as B
     try:
         with mock.patch.object(pa.PulserData, "get_sequences", squeezed), \
-                mock.patch.object(pa.HamiltonianData, "from_sequence", staticmethod(rec_fs)), \
-                mock.patch.object(mbi, "make_H", rec_make_H), contextlib.redirect_stdout(io.StringIO()):
+                mock.patch.object(pa.HamiltonianData, "from_sequence", staticmethod(rec_fs)), recording(info):
             res = B(seq, config=cfg).run()
     except Exception as e:
         rb = basis[0] if basis else None
@@ -444,10 +530,90 @@ def sequence_real(backend: str, bases: str, nmspec: dict, solver: str, dev_noise
     data = captured[0] if captured else None
     if type(res).__name__ != "Results":
         return "other:" + type(res).__name__, rb, data, cfg, info
-    if backend == "sv":
-        return "emulate rydberg2", rb, data, cfg, info
-    ht, dim = info["make_H"][0] if info["make_H"] else ("?", 0)
-    return f"emulate {'rydberg' if ht == 'Rydberg' else 'xy'}{dim}", rb, data, cfg, info
+    return emulate_string(backend, info), rb, data, cfg, info
+
+
+# --------------------------------------------------------------------------- dense reference
+def dense_occupation(data, kind: str):
+    """Occupation ⟨n_j⟩ at the end of the sequence from a dense matrix exponential per step with the
+    Hamiltonian *Pulser defines* for `kind` ('Rydberg': Σ U_ij n_i n_j, 'XY': Σ U_ij (σ⁺_i σ⁻_j + h.c.)),
+    drives Σ Ω_j/2 (cos φ σˣ + sin φ σʸ) − δ_j n_j, interaction matrix at the step mid-point (2-level, noiseless)."""
+    import torch
+    c128 = torch.complex128
+    N = len(data.qubit_ids)
+    I2 = torch.eye(2, dtype=c128)
+    sx = torch.tensor([[0, 1], [1, 0]], dtype=c128)
+    sy = torch.tensor([[0, -1j], [1j, 0]], dtype=c128)
+    n_op = torch.tensor([[0, 0], [0, 1]], dtype=c128)
+    sp = torch.tensor([[0, 0], [1, 0]], dtype=c128)
+
+    def site(op, j):
+        out = torch.ones(1, 1, dtype=c128)
+        for k in range(N):
+            out = torch.kron(out, op if k == j else I2)
+        return out
+
+    psi = torch.zeros(2 ** N, dtype=c128)
+    psi[0] = 1.0
+    tt = data.target_times
+    for k in range(len(tt) - 1):
+        M = data.interaction_matrix(0.5 * (tt[k] + tt[k + 1])).to(c128)
+        H = torch.zeros(2 ** N, 2 ** N, dtype=c128)
+        for j in range(N):
+            H += 0.5 * data.omega[k, j] * (torch.cos(data.phi[k, j]) * site(sx, j) + torch.sin(data.phi[k, j]) * site(sy, j))
+            H -= data.delta[k, j] * site(n_op, j)
+        for i in range(N):
+            for j in range(i + 1, N):
+                if kind == "XY":
+                    hop = site(sp, i) @ site(sp.T.contiguous(), j)
+                    H += M[i, j] * (hop + hop.mH)
+                else:
+                    H += M[i, j] * site(n_op, i) @ site(n_op, j)
+        psi = torch.linalg.matrix_exp(-1j * H * (tt[k + 1] - tt[k]) * 1e-3) @ psi
+    return [float((psi.conj() @ site(n_op, j) @ psi).real) for j in range(N)]
+
+
+def build_dense_case(spec: dict):
+    """A tiny strongly driven, strongly interacting 2-level sequence (so that the XY and the Rydberg
+    evolutions differ by O(0.1) in the occupations). spec: ham, n, nsteps, slm, slm_end_step, numseed."""
+    import torch
+    rng = random.Random(spec.get("numseed", 0))
+    n, nsteps, dt = spec["n"], spec.get("nsteps", 3), 10.0
+    omega = [[round(rng.uniform(20.0, 60.0), 2) for _ in range(n)] for _ in range(nsteps)]
+    delta = [[round(rng.uniform(-10.0, 10.0), 2) for _ in range(n)] for _ in range(nsteps)]
+    phi = [[0.0] * n for _ in range(nsteps)]
+    U = torch.zeros(n, n, dtype=torch.float64)
+    for i in range(n):
+        for j in range(i + 1, n):
+            U[i, j] = U[j, i] = round(rng.uniform(30.0, 90.0), 2)
+    times = [dt * k for k in range(nsteps + 1)]
+    masked, slm_end = None, 0.0
+    if spec.get("slm"):
+        masked = U.clone()
+        masked[n - 1, :] = 0.0
+        masked[:, n - 1] = 0.0
+        slm_end = times[spec.get("slm_end_step", 1)]
+    ham = spec["ham"]
+    return compat.make_sequence_data(omega, delta, phi, U, times, eigenstates=tuple(eigenstates(ham, 2)),
+                                     hamiltonian_type=ham, masked_U=masked, slm_end_time=slm_end)
+
+
+DENSE_TOL = 1e-6
+
+
+def dense_real(spec: dict):
+    """Run the tiny case on the real back-end and compare the returned occupations with the dense
+    reference for the Hamiltonian Pulser defines. → (outcome, max abs error | None, info)"""
+    import torch
+    data = build_dense_case(spec)
+    cfg = build_config(dict(backend=spec["backend"], solver="tdvp", precision=1e-10))
+    out, info = run_real(spec["backend"], data, cfg)
+    if not out.startswith("emulate"):
+        return out, None, info, data, cfg
+    got = [float(x) for x in torch.as_tensor(info["results"].occupation[-1]).real.tolist()]
+    ref = dense_occupation(data, spec["ham"])
+    info["occupation"], info["reference"] = got, ref
+    return out, max(abs(a - b) for a, b in zip(got, ref)), info, data, cfg
 
 
 # --------------------------------------------------------------------------- MPSConfig
